@@ -11,7 +11,7 @@ def queries():
             qs.append(Query('pool_w%d_cfg%d' % (w, cfg), SRC, 'h_threadpool',
                             'ThreadPool with %d worker(s): %s; main thread enqueues, waits, destroys the pool; every interleaving at mutex / condition-variable / atomic-operation granularity' % (w, CFG[cfg]),
                             defs=['WORKERS=%d' % w, 'CONFIG=%d' % cfg], link=['tlx/thread_pool.cpp'], conc=True, nt=nt, rounds=40 if w == 1 else 64, yield_atomics=True,
-                            ll2c=['--alloc-cap', '512', '--unreachable', '_M_reallocate_map', '--unreachable', '_M_push_back_aux', '--unreachable', '_M_pop_front_aux', '--unreachable', '_M_release_last_use_cold', '--no-yield', '_Sp_counted_base'], tiers=('quick', 'thorough') if quick else ('thorough',), timeout=3600 if quick else 14400, unwind=4, max_unwind=100, weight=w * 4 + cfg, mem_gb=30))
+                            ll2c=['--alloc-cap', '512', '--unreachable', '_M_reallocate_map', '--unreachable', '_M_push_back_aux', '--unreachable', '_M_pop_front_aux', '--unreachable', '_M_release_last_use_cold', '--no-yield', '_Sp_counted_base'], tiers=('quick', 'thorough') if quick else ('thorough',), timeout=10800 if quick else 21600, unwind=4, max_unwind=100, weight=w * 4 + cfg, mem_gb=40))
     return qs
 
 ASSUMPTIONS = ['std::deque growth paths (_M_reallocate_map, _M_push_back_aux, _M_pop_front_aux) are replaced by asserted-unreachable bodies: with at most 3 queued jobs they are never entered (the assertion would fail otherwise)',
